@@ -20,11 +20,36 @@ type RepoModel struct {
 	Adopted map[string]bool // K1: became a child of a later stored index while it had no tag
 	DelDig  map[string]bool // K5: deleted by digest
 	LostK1  map[string]bool // K1 was observed for this manifest (never deleted by a client): it may come back when a parent is stored again
+	// K9: child digest -> digest of an index acknowledged in this repository -> media type that index lists the child under
+	Listings map[string]map[string]string
+}
+
+// ListedAs reports whether an index acknowledged in this repository lists d under media type mt.
+func (m *RepoModel) ListedAs(d, mt string) bool {
+	for _, t := range m.Listings[d] {
+		if t == mt {
+			return true
+		}
+	}
+	return false
+}
+
+// ListingTypes returns the number of distinct media types under which acknowledged indexes list d, and whether one
+// of them differs from own (the type d was pushed with).
+func (m *RepoModel) ListingTypes(d, own string) (n int, skew bool) {
+	seen := map[string]bool{}
+	for _, t := range m.Listings[d] {
+		seen[t] = true
+		if t != own {
+			skew = true
+		}
+	}
+	return len(seen), skew
 }
 
 func NewRepoModel(name string) *RepoModel {
 	return &RepoModel{Name: name, Stored: map[string][]byte{}, Mans: map[string]*Man{}, Tags: map[string]string{},
-		Adopted: map[string]bool{}, DelDig: map[string]bool{}, LostK1: map[string]bool{}}
+		Adopted: map[string]bool{}, DelDig: map[string]bool{}, LostK1: map[string]bool{}, Listings: map[string]map[string]string{}}
 }
 
 // Visible reports whether manifest d is retrievable: present in the index and its bytes stored.
@@ -133,6 +158,16 @@ func (w *World) PutManifest(repo string, mm *Man, tag string) (Resp, bool) {
 			for _, c := range mm.Refs {
 				if m.Mans[c] != nil && !m.Tagged(c) && c != mm.D {
 					m.Adopted[c] = true
+				}
+				if cm := w.U.ByD[c]; cm != nil {
+					lt := cm.MT
+					if as := mm.Listed[c]; as != "" {
+						lt = as
+					}
+					if m.Listings[c] == nil {
+						m.Listings[c] = map[string]string{}
+					}
+					m.Listings[c][mm.D] = lt
 				}
 			}
 		}
@@ -283,7 +318,9 @@ type Snap struct {
 	Man  map[string]string   // digest -> "ok" | "404" | other
 	Ref  map[string][]string // subject -> sorted digests
 	Blob map[string]bool     // digest -> retrievable through the blob API
+	CT   map[string]string   // digest of a served manifest -> Content-Type it is served with (Accept: every manifest type)
 	Prob []string            // problems found while reading (bytes differ, wrong headers, ...)
+	K9   []string            `json:"-"` // recorded finding K9: served under the media type a stored index lists it with, not the pushed one
 }
 
 // ModelSnap renders the model in the same form.
@@ -377,8 +414,17 @@ func (w *World) RealSnap(repo string) Snap {
 			if string(rs.Body) != string(mm.Raw) {
 				s.Prob = append(s.Prob, "manifest "+mm.Name+": body differs from the pushed bytes")
 			}
-			if ct := rs.H.Get("Content-Type"); ct != mm.MT {
-				s.Prob = append(s.Prob, fmt.Sprintf("manifest %s: Content-Type %q, pushed %q", mm.Name, ct, mm.MT))
+			ct := rs.H.Get("Content-Type")
+			if s.CT == nil {
+				s.CT = map[string]string{}
+			}
+			s.CT[mm.D] = ct
+			if ct != mm.MT {
+				if rm := w.Repos[repo]; rm != nil && rm.ListedAs(mm.D, ct) {
+					s.K9 = append(s.K9, fmt.Sprintf("manifest %s: Content-Type %q, pushed %q, an acknowledged index lists it under the former", mm.Name, ct, mm.MT))
+				} else {
+					s.Prob = append(s.Prob, fmt.Sprintf("manifest %s: Content-Type %q, pushed %q", mm.Name, ct, mm.MT))
+				}
 			}
 			hd := w.Do(Req{Method: "HEAD", URL: rq.URL, H: acc})
 			if hd.Status != 200 || hd.H.Get("Content-Length") != fmt.Sprint(len(mm.Raw)) || hd.H.Get("Docker-Content-Digest") != mm.D {
@@ -526,6 +572,9 @@ func (w *World) Compare(repo string, real Snap) []Diff {
 	var out []Diff
 	for _, p := range real.Prob {
 		out = append(out, Diff{Kind: "prob", Key: repo, Want: "intact content and headers", Got: p})
+	}
+	for _, p := range real.K9 {
+		out = append(out, Diff{Kind: "prob", Key: repo, Want: "the pushed media type", Got: p, Known: "K9"})
 	}
 	// manifests first: K1/K5 adoption changes the expectation of derived items
 	for _, mm := range w.U.Mans {
